@@ -114,6 +114,10 @@ func parseRequest(body []byte) (*ParseRequestResponse, error) {
 		}
 
 		for _, r := range multipleRequests {
+			// a batch may only contain objects, f.e. [null] is not a request
+			if r == nil {
+				return nil, errors.New("batch contains an element which is not a request")
+			}
 			if r.Query == "" {
 				return nil, errors.New("missing query from request")
 			}
@@ -152,11 +156,14 @@ func (r *ParseRequestResponse) injectFile(upload *Upload, paths []string) error 
 			if err != nil {
 				return err
 			}
+			if idxVal < 0 || idxVal >= len(r.Requests) {
+				return fmt.Errorf("request index %d out of bound %d in path: %s", idxVal, len(r.Requests), path)
+			}
 			idx = idxVal
 			parts = parts[1:]
 		}
 
-		if parts[0] != "variables" {
+		if len(parts) == 0 || parts[0] != "variables" {
 			return fmt.Errorf("missing keyword variables in path: %s", path)
 		}
 
@@ -193,7 +200,7 @@ func (r *ParseRequestResponse) injectFile(upload *Upload, paths []string) error 
 				}
 
 				// index might not be within the bounds
-				if index >= len(v) {
+				if index < 0 || index >= len(v) {
 					return fmt.Errorf("file index %d out of bound %d", index, len(v))
 				}
 				fileVal := v[index]
